@@ -727,6 +727,10 @@ func (c *EvalCtx) index(e *Expr) TV {
 		v := x.sel(x.sel(m, bv.Arr), x.iadd(bv.Off, i))
 		x.axiom(x.typeInv(v, et, nil))
 		return TV{V: v, T: et}
+	case StructArrV:
+		at := bv.T.Underlying().(*types.Array)
+		ref := tb.Add(bv.Ref, tb.Mul(x.toInt(i), tb.IntC(slotSize(at.Elem()))))
+		return TV{V: StructV{H: bv.H, Ref: ref, T: at.Elem()}, T: at.Elem()}
 	case *Term:
 		if at, ok := base.T.Underlying().(*types.Array); ok && bv.Sort.Kind == SArray {
 			v := x.sel(bv, i)
@@ -867,6 +871,17 @@ func (c *EvalCtx) callExpr(e *Expr) TV {
 			return TV{V: sv.Off, T: types.Typ[types.Int]}
 		}
 		return c.fail("off() of non-slice")
+	}
+	if name == "u16at" || name == "u8at" || name == "u32at" {
+		a := c.eval(args[0])
+		k := c.eval(args[1])
+		et := map[string]types.Type{"u16at": types.Typ[types.Uint16], "u8at": types.Typ[types.Uint8], "u32at": types.Typ[types.Uint32]}[name]
+		m := x.heapGet(c.cur.heap, "E."+elemKey(et), x.contentsSort(et))
+		ki := c.mat(k, types.Typ[types.Int])
+		if x.bv && ki.Sort.Width != 64 {
+			ki = tb.BVResize(ki, 64, true)
+		}
+		return TV{V: x.sel(x.sel(m, c.mat(a, a.T)), ki), T: et}
 	}
 	if name == "elems" {
 		v := c.eval(args[0])
